@@ -831,15 +831,17 @@ func (p *InlineParser) parseEndBracket(state *inlineState, start int) (end int) 
 			End:   start,
 		})
 		if p.ReferenceMatcher == nil || !p.ReferenceMatcher.MatchReference(normalizedLabel) {
+			// Only the closing bracket is literal text:
+			// the following "[" may still open a link of its own.
 			state.addToRoot(&Inline{
 				kind: TextKind,
 				span: Span{
 					Start: start,
-					End:   start + 3,
+					End:   start + 1,
 				},
 			})
 			state.stack = deleteDelimiterStack(state.stack, openDelimIndex, openDelimIndex+1)
-			return start + 3
+			return start + 1
 		}
 
 		linkNode := state.wrap(kind, state.stack[openDelimIndex].node, nil)
